@@ -64,6 +64,57 @@ def decide(formula, timeout_ms=20000):
     return str(r), 'z3-api', time.time() - t0, (s.model() if r == z3.sat else None)
 
 
+def spec_matches(name, word):
+    """the statement: the base name of the word is lib<name> followed by a character other than a letter, digit, underscore
+    or hyphen"""
+    base = word.rsplit('/', 1)[-1]
+    stem = 'lib' + name
+    return base.startswith(stem) and len(base) > len(stem) and not re.match(r'[A-Za-z0-9_-]', base[len(stem)])
+
+
+def bounded_fallback(tmpl, flags, tier, out, why):
+    """the pattern uses a construct outside the translated subset of regular expressions (e.g. a zero-width assertion):
+    BOUNDED stand-in - the real compiled pattern against the statement on all short words; never counted as proved"""
+    import itertools
+    alphabet = ['a', 'b', '-', '.', '/', 'l', 'i', '+', '_', '1']
+    names = ['a', 'ab', 'b', 'a-b', 'a+b']
+    maxlen = 7 if tier == 'quick' else 8
+    n = 0
+    bad = None
+    for nm in names:
+        rx = re.compile(tmpl % re.escape(nm), flags)
+        for ln in range(0, maxlen + 1):
+            for tup in itertools.product(alphabet, repeat=ln):
+                w = ''.join(tup)
+                # candidates worth looking at contain the stem (everything else is rejected by both sides or found quickly)
+                n += 1
+                got = rx.match(w) is not None
+                if got != spec_matches(nm, w):
+                    bad = {'name': nm, 'word': w, 'pattern_matches': got, 'statement': spec_matches(nm, w)}
+                    break
+            if bad:
+                break
+        if bad:
+            break
+    out['bounded'] = [{'what': 'library pattern (not translatable: %s) against the statement, natively' % why,
+                       'bound': 'names %r, all words over %r up to length %d' % (names, ''.join(alphabet), maxlen),
+                       'instances': n, 'failed': 0 if bad is None else 1}]
+    if bad:
+        import json
+        rp = os.path.join(ROOT, 'replay', 'C19')
+        os.makedirs(rp, exist_ok=True)
+        path = os.path.join(rp, 'pattern_bounded.json')
+        json.dump({'property': 'C19', 'obligation': 'C19.pattern.equals_the_statement (bounded)', 'input': bad,
+                   'note': 're.compile(<template> % re.escape(name), flags).match(word) on the real module'}, open(path, 'w'))
+        out['violations'].append({'text': 'failed obligation C19.pattern.equals_the_statement (bounded stand-in): name %r, word %r: '
+                                          'pattern %s, statement %s' % (bad['name'], bad['word'], bad['pattern_matches'], bad['statement']),
+                                  'replay': os.path.relpath(path, ROOT), 'confirmed': True})
+    else:
+        out.setdefault('undecided', []).append('library pattern uses a construct outside the translated regex subset (%s); the '
+                                               'bounded comparison found no difference' % why)
+    return out
+
+
 @hook('C19')
 def library_pattern(tier, seed):
     out = {'obligations': 0, 'discharged': 0, 'violations': [], 'samples': [], 'detail': {}, 'trusted': [
@@ -71,7 +122,10 @@ def library_pattern(tier, seed):
         'givc/regex.py (sre parse tree -> SMT regex translation)']}
     tmpl, flags = extract_template()
     name, word, d, base = z3.Strings('name word dir base')
-    rx = pattern_to_z3(tmpl % 'ZZNAMEZZ', flags, {'ZZNAMEZZ': name})
+    try:
+        rx = pattern_to_z3(tmpl % 'ZZNAMEZZ', flags, {'ZZNAMEZZ': name})
+    except (ValueError, KeyError, NotImplementedError) as e:
+        return bounded_fallback(tmpl, flags, tier, out, str(e))
     m = z3.InRe(word, rx)
     ws = z3.Union(*[z3.Re(c) for c in ' \t\n\r\f\v'])
     nows = lambda s: z3.Not(z3.InRe(s, z3.Concat(z3.Full(z3.ReSort(z3.StringSort())), ws, z3.Full(z3.ReSort(z3.StringSort())))))
